@@ -43,7 +43,7 @@ def check(run, prog, tier):
     rule_D(run, prog)
     run.rule("C03-F", "coupling() between aggregate states: exhaustive finite evaluation over occupation "
                       "signatures (N <= 5 molecules, bands 0..2)", minimum=6)
-    rule_F(run, prog)
+    rule_F(run, prog, tier)
     run.rule("C03-G", "transition dipoles and state energies: exhaustive finite evaluation over occupation "
                       "signatures", minimum=6)
     rule_G(run, prog)
@@ -63,7 +63,7 @@ def _signatures(n, mmax, total):
     return out
 
 
-def eval_coupling(prog, kind, n, mmax):
+def eval_coupling(prog, kind, n, mmax, bands=(0, 1, 2)):
     """Interprets coupling() on every ordered pair of distinct states (bands 0..2) of n molecules with at
     most mmax excitations per molecule; returns (deviations, number of pairs, number of states)."""
     import math
@@ -77,7 +77,7 @@ def eval_coupling(prog, kind, n, mmax):
     selfo = Stub("AggregateBase", nmono=n, resonance_coupling=SymArr("J", symmetric=True))
     selfo.methods = {"fc_factor": lambda a, b: fc, "convert_energy_2_current_u": lambda v: v}
     states = []
-    for band in (0, 1, 2):
+    for band in bands:
         for sig in _signatures(n, mmax, band):
             states.append((band, sig))
     objs = []
@@ -123,7 +123,7 @@ def eval_coupling(prog, kind, n, mmax):
     return bad, npairs, len(states)
 
 
-def rule_F(run, prog):
+def rule_F(run, prog, tier="quick"):
     """The element of the Hamiltonian between two aggregate states of the same band is J[k,l] (times the
     vibrational overlap, times the harmonic ladder factors for multiply excited molecules) when the
     two occupation signatures differ on exactly the molecules k and l by one quantum moved, and zero
@@ -133,8 +133,14 @@ def rule_F(run, prog):
     c = prog.func(AB + "coupling")
     configs = [("ElectronicState", n, 1) for n in (2, 3, 4, 5)] + [("VibronicState", n, 1) for n in (2, 3, 4, 5)] + \
               [("VibronicState", n, 2) for n in (2, 3, 4)]
+    bands = (0, 1, 2)
+    if tier == "thorough":
+        # deeper bound: up to 7 molecules, up to three excitations, doubly excited molecules up to N = 5
+        configs = [("ElectronicState", n, 1) for n in range(2, 8)] + [("VibronicState", n, 1) for n in range(2, 8)] + \
+                  [("VibronicState", n, 2) for n in range(2, 6)]
+        bands = (0, 1, 2, 3)
     for kind, n, mmax in configs:
-        bad, npairs, nstates = eval_coupling(prog, kind, n, mmax)
+        bad, npairs, nstates = eval_coupling(prog, kind, n, mmax, bands)
         run.obligation(rid, "AggregateBase.coupling", not bad,
                        key="finite:%s:N=%d:max-occupation=%d" % (kind, n, mmax),
                        message="coupling() deviates from 'J[k,l] between states that differ by one quantum moved "
